@@ -117,8 +117,24 @@ def grep_gate():
     return bad
 
 
-def build_coq(clean=False):
-    """Full .vo build of every theory (never -vos)."""
+def prop_targets(pid):
+    """The .vo files props/<pid>.v imports directly (make builds their own dependencies): a property's check compiles
+    the closure it needs, not other layers' files."""
+    src = os.path.join(PROPS, pid + ".v")
+    if not os.path.exists(src):
+        return None
+    txt = re.sub(r"\(\*.*?\*\)", "", open(src).read(), flags=re.S)
+    tg = []
+    for m in re.finditer(r"From\s+(Burrow|BurrowGen)\s+Require\s+(?:Import|Export)?\s*([^.]*)\.", txt):
+        for name in m.group(2).split():
+            d = "theories" if m.group(1) == "Burrow" else "gen"
+            if os.path.exists(os.path.join(COQ, d, name + ".v")):
+                tg.append("%s/%s.vo" % (d, name))
+    return sorted(set(tg)) or None
+
+
+def build_coq(clean=False, targets=None):
+    """Full .vo build (never -vos) of every theory, or of `targets` and what they depend on."""
     with Lock("coq"):
         vs, gen = coq_sources()
         lines = ["-Q theories Burrow"]
@@ -136,7 +152,8 @@ def build_coq(clean=False):
                cwd=COQ, check=False)
         t0 = time.time()
         # per-file limits: a diverging proof step must not take the machine (or the shared lock) with it
-        p = sh("ulimit -v 16000000; timeout 3000 make -k -j16 COQC='timeout 1200 coqc'", cwd=COQ, check=False)
+        p = sh("ulimit -v 16000000; timeout 3000 make -k -j16 COQC='timeout 1200 coqc' %s" % " ".join(targets or []),
+               cwd=COQ, check=False)
         # A file that does not compile is only fatal for the properties that depend on it: compile_prop()
         # fails for exactly those (their .vo prerequisites are missing).  The log is kept for the evidence.
         open(os.path.join(BUILD, "coq_build.log"), "w").write(p.stdout or "")
@@ -176,6 +193,22 @@ def compile_prop(pid):
                 in_ax = False
     ok = p.returncode == 0
     return dict(theorems=theorems, axioms=axioms, closed=closed, ok=ok, log=out)
+
+
+def coqchk(pid, timeout=3000):
+    """Re-checks the compiled props/<pid>.vo and everything it depends on with Coq's independent checker (thorough tier)."""
+    with Lock("coq"):
+        p = sh("ulimit -v 24000000; exec timeout %d coqchk -silent -o %s Burrow.props.%s" % (timeout, " ".join(coq_flags()), pid),
+               cwd=COQ, check=False)
+    return p.returncode == 0, p.stdout or ""
+
+
+def coqchk_axioms(txt):
+    m = re.search(r"\* Axioms:(.*?)(\n\* |\Z)", txt, flags=re.S)
+    if not m:
+        return "none listed"
+    names = [l.strip() for l in m.group(1).splitlines() if l.strip()]
+    return ", ".join(names) if names else "<none>"
 
 
 # ---------------------------------------------------------------------------------------------
